@@ -27,7 +27,9 @@ theorem connOK_step {cfg : Cfg} {s s' : State} {ev : Ev} (hser : cfg.serialDB = 
     simp only at hj ⊢
     rcases getElem?_set_cases hj with ⟨hji, hb⟩ | ⟨hji, hj'⟩
     · subst hb; subst hji
-      rcases vstep_spec hvs with ⟨_, _, h2⟩ | ⟨_, _, h2⟩ | ⟨hpc, r, _, h2⟩ | ⟨hpc, r, _, h1, h2⟩ | ⟨_, _, h2⟩ | ⟨_, _, h2⟩
+      rcases vstep_spec hvs with ⟨_, _, h2⟩ | ⟨_, _, h2⟩ | ⟨hpc, r, _, h2⟩ | ⟨hpc, r, _, h1, h2⟩ | ⟨_, _, h2⟩ | ⟨_, _, h2⟩ | ⟨_, e, _, h2, _⟩
+      rotate_right
+      · subst h2; simp at hhold
       · rcases h2 with ⟨e, _, _, h2⟩ | h2 <;> subst h2 <;> simp at hhold
       · rcases h2 with ⟨r, _, h1, h2⟩ | ⟨_, _, h2⟩
         · subst h1; simp [hser]
@@ -41,7 +43,9 @@ theorem connOK_step {cfg : Cfg} {s s' : State} {ev : Ev} (hser : cfg.serialDB = 
       · subst h2; simp at hhold
       · subst h2; simp at hhold
     · have hcj := hC j vj hj' hhold
-      rcases vstep_spec hvs with ⟨_, h1, _⟩ | ⟨_, hcf, h2⟩ | ⟨hpc, _⟩ | ⟨hpc, _⟩ | ⟨hpc, _⟩ | ⟨_, h1, _⟩
+      rcases vstep_spec hvs with ⟨_, h1, _⟩ | ⟨_, hcf, h2⟩ | ⟨hpc, _⟩ | ⟨hpc, _⟩ | ⟨hpc, _⟩ | ⟨_, h1, _⟩ | ⟨_, e, _, _, h2⟩
+      rotate_right
+      · rcases h2 with ⟨_, h1⟩ | h1 <;> subst h1 <;> exact hcj
       · subst h1; exact hcj
       · rcases h2 with ⟨r, _, _, _⟩ | ⟨_, h1, _⟩
         · unfold connFree at hcf
@@ -99,11 +103,11 @@ theorem noReaders_of_conn {cfg : Cfg} {s s' : State} (hser : cfg.serialDB = true
 
 /-- invariant + connection discipline are preserved together when the source has either protection. -/
 theorem inv_conn_step {cfg : Cfg} {s s' : State} {ev : Ev}
-    (hcfg : cfg.serialDB = true ∨ cfg.genGuard = true)
+    (hcfg : cfg.serialDB = true ∨ cfg.genGuard = true) (hnt : cfg.hitTouch = false)
     (hI : Inv cfg s) (hC : cfg.serialDB = true → ConnOK s) (hs : step cfg s ev = some s') :
     Inv cfg s' ∧ (cfg.serialDB = true → ConnOK s') := by
   refine ⟨?_, fun hser => connOK_step hser (hC hser) hs⟩
-  apply inv_step hI hs
+  apply inv_step hnt hI hs
   cases hg : cfg.genGuard with
   | true => exact Or.inl rfl
   | false =>
@@ -119,7 +123,8 @@ theorem inv_conn_step {cfg : Cfg} {s s' : State} {ev : Ev}
       exact noReaders_of_conn hser (hC hser) hs hpc
     · exact Or.inl hm
 
-theorem inv_conn_run {cfg : Cfg} (hcfg : cfg.serialDB = true ∨ cfg.genGuard = true) :
+theorem inv_conn_run {cfg : Cfg} (hcfg : cfg.serialDB = true ∨ cfg.genGuard = true)
+    (hnt : cfg.hitTouch = false) :
     ∀ (evs : List Ev) (s s' : State), Inv cfg s → (cfg.serialDB = true → ConnOK s) →
       run cfg s evs = some s' → Inv cfg s' ∧ (cfg.serialDB = true → ConnOK s') := by
   intro evs
@@ -135,7 +140,7 @@ theorem inv_conn_run {cfg : Cfg} (hcfg : cfg.serialDB = true ∨ cfg.genGuard = 
     split at hr
     · simp at hr
     · rename_i s1 hs1
-      have := inv_conn_step hcfg hI hC hs1
+      have := inv_conn_step hcfg hnt hI hC hs1
       exact ih s1 s' this.1 this.2 hr
 
 /-! ### the database after the mutation -/
@@ -241,7 +246,10 @@ theorem late_step {cfg : Cfg} {s s' : State} {ev : Ev} {k i : Nat} {v : VThread}
       subst hvj
       refine ⟨vj', by simp [List.getElem?_set_self', hv], ?_⟩
       obtain ⟨hval, hres, hpcs⟩ := hL
-      rcases vstep_spec hvs with ⟨_, _, h2⟩ | ⟨_, _, h2⟩ | ⟨hpc, r, hrd, h2⟩ | ⟨hpc, _⟩ | ⟨hpc, _⟩ | ⟨_, _, h2⟩
+      rcases vstep_spec hvs with ⟨_, _, h2⟩ | ⟨_, _, h2⟩ | ⟨hpc, r, hrd, h2⟩ | ⟨hpc, _⟩ | ⟨hpc, _⟩ | ⟨_, _, h2⟩ | ⟨hpc, _⟩
+      rotate_right
+      · exfalso
+        rcases hpcs with h | h | h | h | ⟨h, _⟩ <;> rw [hpc] at h <;> simp at h
       · rcases h2 with ⟨e, he, _, _⟩ | h2
         · exfalso
           rcases hI.cache v.val e (lookup_mem he) with ⟨hc, hh⟩ | hfl
